@@ -313,6 +313,8 @@ def r7(chk, ctx):
 
 
 def run(chk, ctx):
+    from . import generic
+    generic.definite_assignment(chk, ctx, ['amqp_0_9_1_messaging', 'amqp_0_9_1_messaging_asyncio'], "C19.DA")   # no local is read before it is bound (UnboundLocalError = an arbitrary exception)
     r1(chk, ctx)
     r2(chk, ctx)
     r3(chk, ctx)
